@@ -249,7 +249,10 @@ PROPS = {
         level_text="Theorems C17_normalise, C17_roundtrip(_loaded) (record level, for any YAML codec that round-trips the "
                    "written value), C17_def_ignores_checksums, C17_def_ignores_order, C17_def_checksum (the definition "
                    "checksum changes exactly when command, working dir, or the sorted checksum-blanked artifact sets "
-                   "change), C17_def_injective_nf, with trim_space/clean idempotence, over the model of toFileFormat / "
+                   "change), C17_def_injective_nf, with trim_space/clean idempotence, and - the last clause, over the "
+                   "whole-program model - C17_status_after_commit, C17_status_after_definition_edit, "
+                   "C17_status_definition_iff, C17_commit_preserves_definitions (tied by the CLI family defedit), "
+                   "over the model of toFileFormat / "
                    "FromFile / CalculateChecksum with the Go JSON encoder model. proof, partial: yaml.v2 is a parameter; "
                    "the correspondence check hammers the round-trip hypothesis with ToFile -> FromFile -> ToFile -> "
                    "FromFile on generated stages over YAML-hazard commands, working dirs and paths with every flag "
